@@ -78,6 +78,12 @@ func (v *globValidator) invalidRefChar(c rune, why string) {
 	v.error(msg)
 }
 
+func (v *globValidator) newlineInCharMatch(c rune) {
+	if c == '\n' || c == '\r' {
+		v.unexpected(c, "content of character match []", "newline cannot be contained")
+	}
+}
+
 func (v *globValidator) init(pat string) {
 	v.errs = []InvalidGlobPattern{}
 	v.prec = false
@@ -131,6 +137,7 @@ func (v *globValidator) validateNext() bool {
 	Loop:
 		for {
 			c = v.scan.Next()
+			v.newlineInCharMatch(c)
 			switch c {
 			case ']':
 				break Loop
@@ -158,6 +165,7 @@ func (v *globValidator) validateNext() bool {
 					// do nothing
 				default:
 					c = v.scan.Next() // eat end of range
+					v.newlineInCharMatch(c)
 					if s > c {
 						why := fmt.Sprintf("start of range %q (%d) is larger than end of range %q (%d)", s, s, c, c)
 						v.unexpected(c, "character range in []", why)
